@@ -148,7 +148,7 @@ func (s *expiry) timerCallback() {
 	if s.will != nil {
 		// publish if exists and wipe state; with RETAIN set it is stored as retained message as well
 		if s.will.Retain() {
-			_ = s.messenger.Retain(s.will)
+			_ = s.messenger.Retain(retainedWill(s.will))
 		}
 
 		_ = s.messenger.Publish(s.will)
